@@ -469,7 +469,8 @@ class C07(LockCheck):
                 'CppUtil.Props.c07_client_owner_holds', 'CppUtil.Props.c07_client_owner_holds_at_boundary',
                 'CppUtil.Props.c07_client_one_owner', 'CppUtil.Props.c07_client_optguard_owns_nothing',
                 'CppUtil.Props.c07_client_no_orphan', 'CppUtil.Props.c07_client_quiescent',
-                'CppUtil.Props.c07_client_release_enabled', 'CppUtil.WClient.step_inv', 'CppUtil.WClient.wfB_sound']
+                'CppUtil.Props.c07_client_release_enabled', 'CppUtil.Props.c07_client_step_enabled',
+                'CppUtil.WClient.step_inv', 'CppUtil.WClient.wfB_sound']
     categories = ['guard']
 
 
@@ -518,7 +519,8 @@ class C13(LockCheck):
     lean_module = 'CppUtil.Props.C13'
     components = ['opt']
     theorems = ['CppUtil.Props.c13_version_result', 'CppUtil.Props.c13_shared_fallback',
-                'CppUtil.Props.c13_cas_from_noX', 'CppUtil.WLock.opt_specs']
+                'CppUtil.Props.c13_cas_from_noX', 'CppUtil.WLock.opt_specs',
+                'CppUtil.Props.c13_client_owning_composite_holds_shared']
     categories = ['prepare']
 
     def relevant_failure(self, r):
